@@ -1,0 +1,45 @@
+//go:build verif
+
+// Contracts for the govc deductive verifier (see /verif/DESIGN.md). Compiled only under the build
+// tag "verif"; adds no behaviour to the package. Specification functions are written from SEMI E5
+// (item header §9.2, format codes, big-endian payload) and the property statements.
+package secs2
+
+// --- clause-language prelude (symbolic for the verifier, executable for replay tests) ---
+
+func zzOld[T any](x T) T   { return x }
+func zzImp(a, b bool) bool { return !a || b }
+
+type zzInt interface {
+	~int | ~int8 | ~int16 | ~int32 | ~int64 | ~uint | ~uint8 | ~uint16 | ~uint32 | ~uint64
+}
+
+func zzForall[T zzInt](f func(T) bool) bool {
+	for j := -2; j < 70000; j++ {
+		if T(j) < 0 != (j < 0) {
+			continue
+		}
+		if !f(T(j)) {
+			return false
+		}
+	}
+	return true
+}
+func zzResult[T any](i int) (zero T) { panic("spec only") }
+func zzIter() int                    { panic("spec only") }
+func zzFresh(x any) bool             { return true }
+func zzSameSlice[T any](a, b []T) bool {
+	return len(a) == len(b) && (len(a) == 0 || &a[0] == &b[0])
+}
+
+// --- interface contracts of Item (receivers are immutable after construction: property C12) ---
+
+//@ iface Item.Error
+//@ pure
+
+//@ iface Item.EncodedLen
+//@ pure
+
+//@ func NewEmptyItem
+//@ ensures [empty] result != nil && result.Error() == nil && result.EncodedLen() == 0
+//@ ensures [fresh] fresh(result)
